@@ -29,3 +29,31 @@ func specCopyConditionsFail(c storage.CopySourceConditions, etag string, lastMod
 	}
 	return false
 }
+
+// verifStore is a storage with an identity and no behaviour (routing scenarios only compare identities).
+type verifStore struct {
+	storage.Storage
+	id int
+}
+
+// verifRouting (ghost scenario, bounded): over a table of bucket names that are prefixes, extensions and dotted or
+// hyphenated variants of each other, whichever subset of them is mapped to storages of its own, a bucket is routed to
+// its own storage exactly when its name is a key of the map, and to the default storage otherwise.
+func verifRouting(mapped uint16, probe uint8) bool {
+	names := []string{"media", "media-archive", "media.example.org", "med", "media2", "other", "other-media", "oth", "xmedia", "mediamedia", "a-media", "archive"}
+	def := &verifStore{id: -1}
+	m := map[string]storage.Storage{}
+	for i, n := range names {
+		if mapped&(1<<uint(i)) != 0 {
+			m[n] = &verifStore{id: i}
+		}
+	}
+	csm := &conditionalStorageMiddleware{bucketToStorageMap: m}
+	csm.Next = def
+	p := int(probe) % len(names)
+	got := csm.lookupStorage(storage.MustNewBucketName(names[p]))
+	if mapped&(1<<uint(p)) != 0 {
+		return got == m[names[p]]
+	}
+	return got == storage.Storage(def)
+}
